@@ -35,9 +35,10 @@ def Val.kind : Val → Kind
   | .map _ => .ptr
   | .host _ => .ptr
   | .attrs _ => .other
+  | .bblock _ => .ptr
 
 def Val.isObject : Val → Bool
-  | .nil | .B _ | .N _ | .S _ | .arr _ | .map _ | .host _ => true
+  | .nil | .B _ | .N _ | .S _ | .arr _ | .map _ | .host _ | .bblock _ => true
   | _ => false
 
 def Val.isInvalid : Val → Bool
@@ -87,6 +88,7 @@ def objStr (h : Heap) : Nat → Val → Option String
     | .map _ => marshal h (fuel + 1) v
     | .host _ => some "{}"
     | .attrs _ => none
+    | .bblock _ => none
 
 def strFuel (h : Heap) : Nat := h.arrs.length + h.maps.length + 8
 
@@ -112,6 +114,7 @@ def truth (h : Heap) : Val → Bool
   | .map a => (h.getMap a).items.length > 0
   | .host _ => true
   | .attrs l => l.length > 0
+  | .bblock _ => true
 
 /-- Go string comparison is bytewise; equal to code point order on valid UTF-8 -/
 def strLt (a b : String) : Bool := a < b
